@@ -68,7 +68,13 @@ pub fn tree_with_history(rng: &mut Rng, case: u64, ev: &mut Ev, partial_bias: bo
                 2 => schema::partial_hard_tanh(out_dim, row, -1.0, 1.0),
                 _ => schema::partial_threshold(out_dim, row, 1.0, 0.0),
             };
-            hist.push("compose::<false>(schema)".into());
+            let mut g = g;
+            if rng.chance(0.3) {
+                g.infeasible_elimination();
+                hist.push("compose::<false>(schema, pre-eliminated)".into());
+            } else {
+                hist.push("compose::<false>(schema)".into());
+            }
             lib(case, "compose::<false> (history)", || t.compose::<false, false>(&g))
         } else if r < 6 {
             let od = 1 + rng.below(3);
@@ -76,7 +82,10 @@ pub fn tree_with_history(rng: &mut Rng, case: u64, ev: &mut Ev, partial_bias: bo
             cg.max_depth = 1 + rng.below(2);
             cg.p_missing = if rng.chance(0.4) { 0.3 } else { 0.0 };
             let gs = gen::spec(rng, &cg);
-            let g = gen::build::<2>(&gs, rng, false);
+            let mut g = gen::build::<2>(&gs, rng, false);
+            if rng.chance(0.3) {
+                g.infeasible_elimination();
+            }
             out_dim = cg.out_dim;
             hist.push(format!("compose::<false>(random tree, missing={})", cg.p_missing));
             lib(case, "compose::<false> (history)", || t.compose::<false, false>(&g))
